@@ -24,7 +24,8 @@ prop(
         dict(run="^TestFaultTable$",
              thorough=dict(shards=16, timeout=3600)),
     ],
-    rule="part 1: 1-3 upstreams (uri + failover list), each with one fault mode from {healthy, connection refused (socket bound, not listening), "
+    rule="part 1: 1-6 upstreams (uri + 0-5 failover URIs; the thorough table enumerates 1-3 and adds every unavailability kind in front of a "
+         "healthy last upstream for 4-6), each with one fault mode from {healthy, connection refused (socket bound, not listening), "
          "timeout (pint timeout 20 ms + its fixed 1 s, handler blocks until the client gives up), HTTP 500 plain, 503 plain, JSON server_error, "
          "bad_data 400, execution 422, 404, truncated body} x endpoint in {query, query_range (1 or 3 slices), config, flags, metadata} x required; one "
          "call through FailoverGroup; judged from each listening upstream's request log (contacted or not, order) and the returned answer/error. "
